@@ -122,9 +122,17 @@ structure HardSig where
   bias : Option Rat
   divisor : Option Rat
 
-/-- `_HardSigmoidFusionBase.check`. -/
-def HardSig.check (p : HardSig) : Bool :=
+/-- The four tests of `_HardSigmoidFusionBase.check` as data: (operand, expected, rtol, exact-int compare). -/
+def hardSigConstants : List (String × Rat × Option Rat × Bool) :=
+  [("clip_min", 0, none, true), ("clip_max", 6, none, true), ("bias", 3, none, true), ("divisor", 6, none, true)]
+
+/-- `_HardSigmoidFusionBase.check` before commit 9b9326e (finding C05-N8, fixed): `isclose(·, rel_tol=1e-4)`. -/
+def HardSig.checkPrefix (p : HardSig) : Bool :=
   closeTo p.clipMin 0 && closeTo p.clipMax 6 && closeTo p.bias 3 && closeTo p.divisor 6
+
+/-- `_HardSigmoidFusionBase.check` as it is now: `is_singleton_value(v, <int>)` compares exactly. -/
+def HardSig.check (p : HardSig) : Bool :=
+  p.clipMin == some 0 && p.clipMax == some 6 && p.bias == some 3 && p.divisor == some 6
 
 /-- The constants are exactly 0, 6, 3, 6 (what the replacement `HardSigmoid(alpha=1/6, beta=0.5)` / `HardSwish` means). -/
 def HardSig.exact (p : HardSig) : Bool :=
@@ -242,8 +250,10 @@ def castConstantOfShapeRun (dst : Nat) (value : Option Rat) : Outcome Nat :=
 /-! ## Layer-norm / RMS-norm guards -/
 
 /-- `LayerNormFusion.check`: `x.dtype ∈ {FLOAT, DOUBLE}` and epsilon is a one-element constant. -/
+def layerNormComputeTypes : List Nat := [1, 11]     -- FLOAT, DOUBLE
+
 def layerNormCheck (xDtype : Option Nat) (epsSingleton : Bool) : Bool :=
-  (xDtype == some 1 || xDtype == some 11) && epsSingleton
+  (match xDtype with | some t => layerNormComputeTypes.contains t | none => false) && epsSingleton
 
 /-! ## ONNX `Slice` with step 1 on one axis, any start/end (for `collapse_slice2`) -/
 
